@@ -564,8 +564,22 @@ pub fn history(cfg: &Cfg, rep: &mut Report, fl: Fl, h: u64, steps: usize, mode: 
             }
         }
         if mode == Mode::Auth && mism > 0 {
-            // ownership itself is C10's subject; without an agreed owner the C11 oracle has no
-            // footing, so this history ends here (counted, not judged)
+            // ownership as such is C10's subject, with one exception that is C11's own: a token that the
+            // call did not name and that now reports ANOTHER owner was moved without its owner's (or
+            // anybody's) authorization for that token
+            let named: Option<u32> = match &op {
+                Op::Transfer { id, .. } | Op::TransferFrom { id, .. } | Op::Burn { id, .. } | Op::BurnFrom { id, .. } | Op::Approve { id, .. } => Some(*id),
+                _ => None,
+            };
+            for i in ids.iter() {
+                if let (Some(have), Some(want)) = (t.owner_of(*i), m.owner.get(i).cloned()) {
+                    if have != want && Some(*i) != named && !matches!(op, Op::Mint { .. } | Op::Batch { .. }) {
+                        rep.check("spender", false, &format!("C11/moved/{site}/token-changed-hands-without-being-named"), || format!("after {op:?} signed by {signers:?}: token {i} went from account {want} to account {have} although the call did not name it"));
+                        break;
+                    }
+                }
+            }
+            // without an agreed owner the C11 oracle has no footing, so this history ends here
             rep.count("ownership_divergence_history_abandoned");
             break;
         }
